@@ -422,20 +422,13 @@ pub fn run_partitions(seed: u64, n: usize, out: &mut Out) {
     let base = Rng::new(seed ^ 0xC08);
     let groups = (n / (ctx.entries.len() * 4)).max(1);
     let mut id = 0usize;
-    // F16 witness: `f = -9` first in a two-item attribute vs alone in its own attribute
-    if let Some((me, f)) = ctx.entries.iter().enumerate().find_map(|(i, e)| {
-        let info = (e.info)();
-        if info.kind != "FA" {
-            return None;
-        }
-        info.base.fields.iter().find(|f| f.valid.contains(&" = -9") && !f.multiple).map(|f| (i, f.name))
-    }) {
-        let info = (ctx.entries[me].info)();
-        let a = info.attr_names[0];
-        for (p, src) in [format!("#[{a}({f} = -9, {f} = -9)]"), format!("#[{a}({f} = -9)]\n#[{a}({f} = -9)]")].iter().enumerate() {
-            if let Some((case, ans)) = case_from_source(&ctx, me, src, no_sim) {
-                out.case_id("recv", &format!("p-w-{}", p), &case, &ans);
-            }
+    // F16 witness on the fixed receiver `FAW { f: i64, g: i64 (default) }`: the same two items in one
+    // attribute and split over two
+    {
+        let me = ctx.index["FAW"];
+        for (p, src) in ["#[a(f = -9, g = 1)]", "#[a(f = -9)]\n#[a(g = 1)]"].iter().enumerate() {
+            let (case, ans) = case_from_source(&ctx, me, src, no_sim).expect("the F16 witness parses");
+            out.case_id("recv", &format!("p-w-{}", p), &case, &ans);
         }
     }
     for me in 0..ctx.entries.len() {
